@@ -424,7 +424,7 @@ def request_deps(ctx):
                     got |= kind_of_operand(a, t["args"][1]) if len(t["args"]) > 1 else set()
             if kinds:
                 ctx.check({"Build", "Service"} <= got, f"{lab}/Requested.{k}", [site(a, c[0]) for c in calls] or [a.loc(min(R))],
-                          f"the dependencies are requested for {sorted(got)} only: a dependency of the missing kind never starts and the target waits forever", props=["C04"])
+                          f"the dependencies are requested for {sorted(got)} only: a dependency of the missing kind never starts (or only later, behind dependencies it does not depend on) and the target waits", props=["C04", "C17"])
             else:
                 ctx.check("msg" in got, f"{lab}/Requested.{k}", [site(a, c[0]) for c in calls] or [a.loc(min(R))],
                           f"the aggregate does not request its dependencies with the incoming kind (got {sorted(got)})", props=["C04", "C20"])
